@@ -62,6 +62,10 @@ def run(prop, tier, seed, replay=None):
                      "events are applied through tor.handleEvent (TorPeerExtended, TorMetaData) on a stepped torrent; the wire decoding of "
                      "ut_metadata messages is covered by C04/C05"]
     scen = []
+    if replay and json.load(open(replay))["scenario"].get("binding") == "peerfsm":
+        import p_peerfsm
+        p_peerfsm.metadata_probe(v, prop, tier, seed, [json.load(open(replay))["scenario"]])
+        return v.finish()
     if replay:
         scen = [json.load(open(replay))["scenario"]]
     else:
@@ -120,6 +124,10 @@ def run(prop, tier, seed, replay=None):
     v.cov["histories_ending_with_metadata_published"] = completed
     if not replay and completed == 0:
         raise Internal("no history ever completed the metadata (vacuous)")
+    if not replay:
+        # the same exchange seen from the peer handlers (what the torrent makes them write must be writable)
+        import p_peerfsm
+        p_peerfsm.metadata_probe(v, prop, tier, seed)
     # trace validation
     for (ts, parseok), lst in groups.items():
         twd = vlib.scratch("mdt-")
